@@ -3,6 +3,9 @@
 QI   index-domain typing of Transportation1dSorter's conversions: a vector's index domain is that of
      the size it was built with; a subscript whose value domain differs from the vector's index domain is
      a violation; the returned vector has the declared index and value domains
+GZ   the sorter hands the solver only sources of positive supply and sinks of positive demand (each element pushed into
+     a sort list is edge-dominated by a positivity test on the same index of another input vector)
+AW   totals (totalSupply / totalDemand and any other fold in the unit) are accumulated in 64 bits
 QC   the two callers in DensityLegalizer subscript their per-bin vector with the returned sink index only
      after building the problem with one sink per bin and one source per collected cell
 """
@@ -157,6 +160,8 @@ def run(ctx, rep, tier):
     prog = ctx.prog
     seeds = json.load(open(os.path.join(VERIF, "rules", "c14.json")))
     rep.rule("QI", "index-domain typing of the sorter's conversions (subscripts and returned vectors)", 8)
+    rep.rule("GZ", "zero supplies / zero demands are filtered out before the solver sees them", 2)
+    rep.rule("AW", "supply / demand totals accumulated in 64 bits", 2)
     rep.rule("QC", "callers index per-bin vectors with the returned sink index of a problem with one sink per bin", 2)
     for q in ("Transportation1dSorter::convertAssignmentBack", "Transportation1dSorter::convertSolutionBack",
               "Transportation1dSorter::convert"):
@@ -164,6 +169,12 @@ def run(ctx, rep, tier):
         check_function(ctx, rep, f, seeds)
     for q in ("DensityLegalizer::improveXTransport", "DensityLegalizer::improveYTransport"):
         check_caller(ctx, rep, prog.func1(CQ + q))
+    _extra(ctx, rep)
+
+
+def _extra(ctx, rep):
+    check_zero_filter(ctx, rep)
+    check_totals(ctx, rep)
 
 
 def check_function(ctx, rep, f, seeds):
@@ -276,3 +287,63 @@ def check_caller(ctx, rep, f):
         rep.violation("QC", f.decl, f, "problem/assignment index alignment broken", "; ".join(problems), key="%s|assignment alignment" % f.short)
     else:
         rep.holds("QC", f.decl, f, "one source per collected cell, one sink per bin; assignment read for exactly those cells")
+
+
+def check_zero_filter(ctx, rep):
+    prog = ctx.prog
+    ctors = [f for f in prog.funcs.values() if f.kind == "CXXConstructorDecl" and f.qname.endswith("Transportation1dSorter::Transportation1dSorter") and f.body is not None]
+    if len(ctors) != 1:
+        rep.unknown("GZ", None, None, "Transportation1dSorter constructor", "found %d" % len(ctors))
+        return
+    f = ctors[0]
+    pids = {p.get("id"): p.get("name") for p in f.params}
+    n = 0
+    for x in walk(f.body):
+        if x.get("kind") != "CXXMemberCallExpr":
+            continue
+        ci = callee_info(x)
+        if not ci or ci["name"] not in ("emplace_back", "push_back") or len(ci["args"]) < 2:
+            continue
+        a0 = canon(ci["args"][0])
+        if not (a0[0] == "index" and a0[1][0] == "var" and a0[1][1] in pids):
+            continue
+        n += 1
+        idx = a0[2]
+        ok = False
+        for gc, val, _a, _as in (ctx.guards(f, x) or []):
+            if gc[0] == "bin" and gc[1] in (">", "!=") and val is True and gc[3][0] == "lit" and str(gc[3][1]).rstrip("L") == "0":
+                l = gc[2]
+                if l[0] == "index" and l[1][0] == "var" and l[1][1] in pids and l[1][1] != a0[1][1] and l[2] == idx:
+                    ok = True
+        what = "position %s enters the sorted problem" % pretty(a0)
+        if ok:
+            rep.holds("GZ", x, f, what, "only under a positivity test on the same index of the matching quantity vector")
+        else:
+            rep.violation("GZ", x, f, what, "entries of zero supply / demand are not filtered out: the solver's sweep assumes every source and "
+                          "sink has room (it either refuses the instance or scans past the last sink)", key="Transportation1dSorter::Transportation1dSorter|zero entries kept")
+    if n < 2:
+        rep.unknown("GZ", f.decl, f, "sort lists", "expected the source and the sink list to be filled from the position vectors, found %d fill site(s)" % n)
+
+
+def check_totals(ctx, rep):
+    from .common import check_accumulators
+    prog = ctx.prog
+    fs = [f for f in prog.all_funcs(with_lambdas=False) if loc_str(f.decl).startswith("src/place_global/transportation_1d")]
+    n = check_accumulators(ctx, rep, "AW", fs)
+    # hand-written folds: the accumulator returned by totalSupply / totalDemand is 64-bit
+    for q in ("Transportation1d::totalSupply", "Transportation1d::totalDemand"):
+        for f in [g for g in prog.funcs.values() if g.qname.endswith(q)]:
+            rets = [y for y in walk(f.body) if y.get("kind") == "ReturnStmt" and children(y)]
+            for r in rets:
+                c = canon(children(r)[0])
+                if c[0] == "var":
+                    d = f.unit.by_id.get(c[1])
+                    t = qt(d).replace("const ", "") if d is not None else "?"
+                    n += 1
+                    if t in ("long long", "long", "unsigned long", "unsigned long long", "double"):
+                        rep.holds("AW", r, f, "%s accumulates in %s" % (q, t))
+                    else:
+                        rep.violation("AW", r, f, "%s accumulates in %s" % (q, t), "supplies are scaled areas: their total exceeds 2^31",
+                                      key="%s|narrow accumulator" % q)
+    if n == 0:
+        rep.unknown("AW", None, None, "totals", "no fold found in transportation_1d.cpp")
